@@ -260,6 +260,9 @@ def _parse_tlc_output(res, out):
         res.violated = m.group(1)
     if "Error: Temporal properties were violated" in out:
         res.violated = "temporal"
+    m = re.search(r"Error: Temporal property ([A-Za-z0-9_]+) was violated", out)
+    if m:
+        res.violated = m.group(1)
     if "Error: Deadlock reached" in out:
         res.violated = "deadlock"
     m = re.search(r"Error: The postcondition ([A-Za-z0-9_]+)? ?.*is violated|Error: Postcondition.*violated|postcondition.*(?:false|violated)", out, re.I)
